@@ -10,7 +10,10 @@ ROUND3 = os.environ.get('ROUND3', '0') == '1'
 ROUND4 = os.environ.get('ROUND4', '0') == '1'
 ROUND5 = os.environ.get('ROUND5', '0') == '1'
 ROUND6 = os.environ.get('ROUND6', '0') == '1'
-if ROUND6:     # sixth round M24..M26 (cross-property, convenience APIs): M24 keeps p/q, M25 -> r/s, M26 -> t/u
+ROUND7 = os.environ.get('ROUND7', '0') == '1'
+if ROUND7:     # seventh round M27..M29: agents name v/w; M27 keeps v/w, M28 -> x/y, M29 -> z/{ (mapped to za/zb)
+    cands = sorted(glob.glob('/tmp/M2[7-9]_out/C??-?'))
+elif ROUND6:     # sixth round M24..M26 (cross-property, convenience APIs): M24 keeps p/q, M25 -> r/s, M26 -> t/u
     cands = sorted(glob.glob('/tmp/M2[4-6]_out/C??-?'))
 elif ROUND5:     # fifth, cross-property round M21..M23: ids as given (Cxx-j, Cxx-k, ...)
     cands = sorted(glob.glob('/tmp/M2[1-3]_out/C??-?'))
@@ -26,6 +29,10 @@ else:
 
 def sid_of(c):
     b = os.path.basename(c)
+    if ROUND7:
+        ag = c.split('/')[2].split('_')[0]
+        k = ord(b[-1]) - ord('v')
+        return b[:-1] + {'M27': 'vw', 'M28': 'xy', 'M29': ['za', 'zb']}[ag][k]
     if ROUND6:
         shift = {'M24': 0, 'M25': 2, 'M26': 4}[c.split('/')[2].split('_')[0]]
         return b[:-1] + chr(ord(b[-1]) + shift)
